@@ -20,7 +20,7 @@ fn same(k: &ZipCryptoKeys, r: &RefPk) -> bool {
 /// C15(a) one inductive step, all 2^96 key states x 2^8 bytes: decrypt_byte equals the APPNOTE
 /// 6.1 cipher written with a bitwise CRC (so the crate's 256-entry table is checked too) and
 /// leaves the same key state.
-// @h prop=C15 tier=quick t=600 mem=6
+// @h prop=C15 tier=quick t=300 mem=4
 #[kani::proof]
 fn c15_decrypt_step_matches_appnote() {
     let (mut k, mut r) = any_keys();
@@ -34,7 +34,7 @@ fn c15_decrypt_step_matches_appnote() {
 
 /// C15(a) encrypt_byte equals the APPNOTE cipher step; decrypt(encrypt(p)) == p from equal
 /// states and both leave equal states (by induction: every length, every password).
-// @h prop=C15 tier=quick t=600 mem=6
+// @h prop=C15 tier=quick t=300 mem=4
 #[kani::proof]
 fn c15_encrypt_step_matches_and_inverts() {
     let (mut k, mut r) = any_keys();
@@ -51,7 +51,7 @@ fn c15_encrypt_step_matches_and_inverts() {
 }
 
 /// C15(b) key derivation from a password of length 0..=3 equals the APPNOTE initialisation.
-// @h prop=C15 tier=quick t=600 mem=6
+// @h prop=C15 tier=quick t=300 mem=4
 #[kani::proof]
 #[kani::unwind(5)]
 fn c15_derive_matches_appnote() {
@@ -75,7 +75,7 @@ fn c15_derive_matches_appnote() {
 /// key state and arbitrary 12 header bytes, the reader is accepted iff the decrypted 12th byte
 /// equals the CRC high byte (PKZIP) resp. the DOS-time high byte (Info-ZIP variant), and an
 /// accepted reader continues from the key state after the header, positioned after 12 bytes.
-// @h prop=C15 tier=quick t=600 mem=8
+// @h prop=C15 tier=quick t=1140 mem=4
 #[kani::proof]
 #[kani::unwind(14)]
 fn c15_validate_check_byte() {
@@ -116,7 +116,7 @@ fn c15_validate_check_byte() {
 }
 
 /// C15 truncated crypto header (fewer than 12 bytes available) is an error, not a panic.
-// @h prop=C15,C05 tier=quick t=600 mem=6
+// @h prop=C15,C05 tier=quick t=300 mem=4
 #[kani::proof]
 #[kani::unwind(14)]
 fn c15_validate_short_header_errors() {
@@ -138,7 +138,7 @@ fn c15_validate_short_header_errors() {
 /// arbitrary key state, 3 ciphertext bytes, an arbitrary short-read schedule of the underlying
 /// reader and arbitrary caller buffer sizes (0..=3 per call, 4 calls), the concatenation of
 /// the bytes returned equals the one-shot decryption.
-// @h prop=C09,C15 tier=quick t=600 mem=8
+// @h prop=C09,C15 tier=dev t=600 mem=8
 #[kani::proof]
 #[kani::unwind(5)]
 fn c09_zipcrypto_read_chunking() {
@@ -233,8 +233,8 @@ macro_rules! c15_writer {
 /// sink on finish(crc) is exactly the encryption, in order, of the 12-byte header whose last
 /// byte is replaced by the CRC high byte, followed by the content; arbitrary key state, header
 /// bytes, content bytes and CRC. Variant: empty content.
-// @h prop=C15 tier=quick t=600 mem=8 name=c15_writer_ciphertext_n0
+// @h prop=C15 tier=quick t=840 mem=4 name=c15_writer_ciphertext_n0
 c15_writer!(c15_writer_ciphertext_n0, 0, 0);
 /// C15(d) as above with 3 content bytes written in two calls (1 + 2).
-// @h prop=C15 tier=quick t=600 mem=8 name=c15_writer_ciphertext_n3
+// @h prop=C15 tier=quick t=780 mem=4 name=c15_writer_ciphertext_n3
 c15_writer!(c15_writer_ciphertext_n3, 3, 1);
